@@ -1177,7 +1177,30 @@ def fn(name, *args, pos=False, integer=False):
     return atom_expr(_atom("fn", name, args, pos=pos, integer=integer))
 
 
-_REBUILD = {"log": log, "sin": sin, "cos": cos, "arctan": arctan, "exp": exp, "expi": lambda a: exp(IMAG * a)}
+def _minmax(name):
+    def f(*args):
+        args = [as_expr(a) for a in args]
+        cs = [a.as_const() for a in args]
+        if all(c is not None and c.im == 0 for c in cs):
+            g = max if name == "max" else min
+            return as_expr(g(c.re for c in cs))
+        uniq = []
+        for a in args:
+            if not any(a.eq(b) for b in uniq):
+                uniq.append(a)
+        if len(uniq) == 1:
+            return uniq[0]
+        srt = sorted(uniq, key=repr)
+        pos = all(manifest_sign(a) == {"+"} for a in srt)
+        return fn(name, *srt, pos=pos)
+
+    return f
+
+
+fmax, fmin = _minmax("max"), _minmax("min")
+
+
+_REBUILD = {"max": fmax, "min": fmin, "log": log, "sin": sin, "cos": cos, "arctan": arctan, "exp": exp, "expi": lambda a: exp(IMAG * a)}
 
 
 def rebuild(a, args):
